@@ -655,3 +655,124 @@ func init() {
 			return obs
 		}})
 }
+
+// BOUNDS.validator-post — C03 ("no builtin answers with internal-panic"): the
+// elpspath operations do not test their positions themselves; they all go
+// through two small validators and then index or slice with what comes back.
+// The validators' contract is therefore the bounds check: a success return
+// must be preceded, on every path, by comparisons that establish the window.
+func init() {
+	register(&Rule{ID: "BOUNDS.validator-post", Floor: 5,
+		Doc: "libelpspath.validateRange returns (from, to, nil) only over paths that establish 0 <= from, from <= to and to <= n, and resolveIndex returns (index, true) only over paths that establish 0 <= index and index < n — each fact from a comparison later than the last assignment to the variable: every range and index step of a path expression slices within the sequence",
+		Run: func(c *Ctx) []Obligation {
+			const rid = "BOUNDS.validator-post"
+			type fact struct {
+				lo, hi string
+				strict bool
+			}
+			type spec struct {
+				fname string
+				okRet func(info *types.Info, rs *ast.ReturnStmt) bool
+				facts func(params []string) []fact
+			}
+			isNil := func(info *types.Info, e ast.Expr) bool { tv, ok := info.Types[e]; return ok && tv.IsNil() }
+			specs := []spec{
+				{"lisp/lisplib/libelpspath.validateRange",
+					func(info *types.Info, rs *ast.ReturnStmt) bool { return len(rs.Results) == 3 && isNil(info, rs.Results[2]) },
+					func(p []string) []fact {
+						return []fact{{"", p[1], false}, {p[1], p[2], false}, {p[2], p[0], false}}
+					}},
+				{"lisp/lisplib/libelpspath.resolveIndex",
+					func(info *types.Info, rs *ast.ReturnStmt) bool {
+						return len(rs.Results) == 2 && isBoolConst(info, rs.Results[1], true)
+					},
+					func(p []string) []fact { return []fact{{"", p[1], false}, {p[1], p[0], true}} }},
+			}
+			var obs []Obligation
+			for _, sp := range specs {
+				fn, fd, pkg := c.LookupFunc(sp.fname)
+				if fn == nil {
+					obs = append(obs, anchorMissing(rid, sp.fname))
+					continue
+				}
+				u := FuncUnit{fn, fd, pkg}
+				info := pkg.TypesInfo
+				var params []string
+				for _, f := range fd.Type.Params.List {
+					for _, nm := range f.Names {
+						params = append(params, nm.Name)
+					}
+				}
+				if len(params) < 2 {
+					obs = append(obs, mkOb(c, rid, u, "parameters", fd, Undecided, "unexpected parameter list", true))
+					continue
+				}
+				fc := c.cfgOf(u, nil)
+				lastAssign := func(name string) token.Pos {
+					var p token.Pos
+					ast.Inspect(fd.Body, func(n ast.Node) bool {
+						switch x := n.(type) {
+						case *ast.AssignStmt:
+							for _, l := range x.Lhs {
+								if id, ok := l.(*ast.Ident); ok && id.Name == name && x.End() > p {
+									p = x.End()
+								}
+							}
+						case *ast.IncDecStmt:
+							if id, ok := x.X.(*ast.Ident); ok && id.Name == name && x.End() > p {
+								p = x.End()
+							}
+						}
+						return true
+					})
+					return p
+				}
+				nret := 0
+				for _, b := range fc.G.Blocks {
+					if !fc.Live(b) {
+						continue
+					}
+					for _, n := range b.Nodes {
+						rs, ok := n.(*ast.ReturnStmt)
+						if !ok || !sp.okRet(info, rs) {
+							continue
+						}
+						nret++
+						// the returned positions must be the validated parameters themselves
+						for _, f := range sp.facts(params) {
+							lo := f.lo
+							if lo == "" {
+								lo = "0"
+							}
+							op := "<="
+							if f.strict {
+								op = "<"
+							}
+							construct := fmt.Sprintf("success return: %s %s %s", lo, op, f.hi)
+							edges := factEdges(fc, info, fd.Body, cmpFact{lo: f.lo, hi: f.hi, strict: f.strict}, nil)
+							// keep only edges whose condition comes after the last assignment to either variable
+							var late []cfgEdge
+							after := lastAssign(f.hi)
+							if f.lo != "" && lastAssign(f.lo) > after {
+								after = lastAssign(f.lo)
+							}
+							for _, e := range edges {
+								if cnd := fc.CondOf(e.B); cnd != nil && cnd.Pos() >= after {
+									late = append(late, e)
+								}
+							}
+							if fc.reachableAvoiding(b, late) {
+								obs = append(obs, mkOb(c, rid, u, construct, rs, Violated, "the validator can report success on a path that never establishes this bound (after the last adjustment of the position): callers slice or index with the returned value unchecked, so e.g. (elpspath:? (vector 1 2 3) '(range -5 2)) reaches a Go slice expression with a negative bound and answers internal-panic, which a catch-all handler does not contain", true))
+							} else {
+								obs = append(obs, mkOb(c, rid, u, construct, rs, Proved, "established on every path to the success return", true))
+							}
+						}
+					}
+				}
+				if nret == 0 {
+					obs = append(obs, mkOb(c, rid, u, "success return", fd, Undecided, "no success return recognised", true))
+				}
+			}
+			return obs
+		}})
+}
